@@ -26,7 +26,9 @@ EVIDENCE = {
             'packets are sent by 1-3 application threads (CRTP through TcpDriver.send_packet and raw CPX packets through '
             'cpx.sendPacket on the same link); socket.send() is a scheduling point and the byte stream on the wire must '
             'parse into an interleaving of the per-thread frame sequences.  15 % of the downlink frames stall for 0.3-3 s '
-            'in the middle of the frame; socket time-outs (settimeout) are honoured by the fake socket.',
+            'in the middle of the frame; socket time-outs (settimeout) are honoured by the fake socket.  Uplink CPX packet '
+            'objects are built through the constructor, attribute by attribute, or get their payload replaced after '
+            'construction (their wire data is compared with the expected frame before sending).',
     'directed': 'every composition of the receive chunk sizes for a 12-byte stream carrying three packets (2^11 = 2048 '
                 'fragmentations; every 8th in the quick tier)',
     'real': ['CPXPacket', 'CPXRouter (thread)', 'CPX', 'SocketTransport', 'TcpDriver', '_CPXReceiveThread', 'CRTPPacket'],
